@@ -3,6 +3,8 @@ import DcVerif.Lemmas.RingMulti
 import DcVerif.Lemmas.RingPay
 import DcVerif.Lemmas.RingMultiSafe
 import DcVerif.Lemmas.RingMultiPay
+import DcVerif.Lemmas.RingMultiDeliver
+import DcVerif.Props.C06
 /-!
 # C04 — every published event is delivered exactly once, in order (single-producer pipelines)
 
@@ -34,6 +36,13 @@ consumers start at `cursor + 1 = 1`, so sequence 0 is written but never delivere
                               write of `q`, made by its claimant, transformed by the mutable handlers of the stages below `k`;
                               with `c04_multi_written_once`, `c04_multi_written_value_is_next_item`, `c04_multi_seen_is_log`,
                               `c04_multi_payload_layer_is_ghost`.
+* `c04_multi_delivered_after_drain` — multi producer, any number of writers, every schedule: once `drain` has returned a
+                              terminated handler has been handed exactly `1 … cursor` (`Lemmas/RingMultiDeliver.lean`); stronger:
+                              `c04_multi_delivered_once_drained`, `c04_multi_delivered_at_handler_exit`;
+* `c04_multi_complete_when_released` — … and if `cursor = hw` (nothing stranded) exactly the claimed sequences `1 … hw`, each
+                              written exactly once, by its claimant, before the handler call;
+* `c04_multi_single_writer_delivers_all(_blocking)`, `c04_multi_single_writer_payload_delivered` — one writer thread, every
+                              fair schedule: all threads terminate and every handler has been handed `1 … Σ batches`, intact.
 -/
 namespace C04
 open Ring
@@ -386,5 +395,258 @@ example : ∃ i v, (5, i, v) ∈ demoMPay.wlog ∧ 3006 = expectBelow demoMCfg.h
   exact ⟨i, v, h1, h4⟩
 
 end MultiPayload
+
+/-! ## complete delivery, multi-producer pipelines
+
+`c04_delivered_after_drain` for the multi-producer sequencer. `MultiProducerSequencer::drain` runs after the join of the writer
+threads, reads the cursor once and waits until every last-stage handler has reached that value; since no writer is left the
+value it read is the final cursor (`Lemmas/RingMultiDeliver.lean`, invariant `DDel`). So **whatever the release protocol
+managed to publish is delivered completely**: every handler that has terminated was handed `1 … cursor`, once each, in order —
+for any number of writers, any ring size, both wait strategies, every schedule. What the release protocol can fail to do
+(F7/F8/F13) is to get the cursor up to the high watermark; `c04_multi_complete_when_released` is the full statement of C04
+under exactly that hypothesis, and `c04_multi_single_writer_delivers_all` discharges it (together with termination) for one
+writer thread. With two or more writers `cursor = hw` is false in general: `lostRun` above ends with `cursor = 1 < hw = 2`. -/
+section MultiDelivery
+open RingMulti RingPay RingMultiPay
+
+/-- **delivery after `drain`, multi producer** (any number of writer threads, any ring size, topology, wait strategy, every
+schedule): once `drain` has returned and a handler thread has terminated it has been handed exactly `1 … cursor` — the
+multi-producer analogue of `c04_delivered_after_drain`, same hypotheses, same conclusion -/
+theorem c04_multi_delivered_after_drain {x : MSt} (hr : MReachableWF x) (hd : x.dr.pc = .done)
+    (k j : Nat) (hk : k < x.s.K) (hj : j < x.s.h k) (_hc : (x.s.cons k j).pc = .done) :
+    (x.s.cons k j).log = List.range' 1 x.s.cursor :=
+  (drained_all_caught_up x (mreachableWF_good hr) (mreachableWF_ddel hr) (by rw [hd]; rfl) k j hk hj).2.2.2
+
+/-- stronger, neither thread needs to have *terminated*: from the moment the wait loop of `drain` has exited (`is_done` not
+even stored yet) every handler's published cursor equals the producer cursor, no handler is inside a batch, and every handler
+has been handed exactly `1 … cursor` -/
+theorem c04_multi_delivered_once_drained {x : MSt} (hr : MReachableWF x) (hd : dDrained x.dr.pc = true)
+    (k j : Nat) (hk : k < x.s.K) (hj : j < x.s.h k) :
+    (x.s.cons k j).cur = x.s.cursor ∧ (x.s.cons k j).pc ≠ .handle ∧ (x.s.cons k j).pc ≠ .publish ∧
+    (x.s.cons k j).log = List.range' 1 x.s.cursor :=
+  drained_all_caught_up x (mreachableWF_good hr) (mreachableWF_ddel hr) hd k j hk hj
+
+/-- the hypothesis on the draining thread is implied: a handler thread only terminates on `is_done`, which `drain` stores after
+its wait loop. So a terminated handler has *always* been handed exactly `1 … cursor`. -/
+theorem c04_multi_delivered_at_handler_exit {x : MSt} (hr : MReachableWF x)
+    (k j : Nat) (hk : k < x.s.K) (hj : j < x.s.h k) (hc : (x.s.cons k j).pc = .done) :
+    (x.s.cons k j).log = List.range' 1 x.s.cursor :=
+  (c04_multi_delivered_once_drained hr (drained_of_cons_done x (mreachableWF_ginv hr).mtx k j hk hj hc) k j hk hj).2.2.2
+
+/-! non-vacuity: `lostRun` (two writers, the run is over, sequence 2 stranded): the handler got exactly `1 … cursor = [1]` -/
+theorem lostRun_reachable : MReachableWF lostRun :=
+  ⟨4, 1, fun _ => 1, false, [[1], [1]], _, by decide, fun _ _ => Nat.one_pos, by decide, rfl⟩
+
+example : lostRun.dr.pc = .done ∧ (lostRun.s.cons 0 0).pc = .done ∧ lostRun.s.cursor = 1 ∧ lostRun.hw = 2 := by
+  decide +kernel
+
+example : (lostRun.s.cons 0 0).log = List.range' 1 lostRun.s.cursor :=
+  c04_multi_delivered_after_drain lostRun_reachable (by decide +kernel) 0 0 (by decide +kernel) (by decide +kernel)
+    (by decide +kernel)
+
+/-- **C04 for the multi-producer sequencer, under the hypothesis that the release protocol did its job** (ring sizes `2^e`, any
+number of writer threads, topology, wait strategy, every schedule). If `drain` has returned, the handler thread `(k,j)` has
+terminated and everything claimed was released (`cursor = hw`), then
+
+* the handler was handed exactly the claimed sequences `1 … hw`, once each, in order;
+* these are exactly the sequences of the successful claims, which tile `[1, hw]` (each of its requested length);
+* every one of them, `q`, is in the log, was written to its slot **exactly once, by the writer `i` holding the claim that
+  contains it** (`(q, i)` is the only entry for `q` in the log of slot writes), and is pending with no writer — and that was
+  already so when the handler was handed `q` (`c04_multi_written_before_handed` below, from `c04_multi_handle_only_published`: at the call, `q` is in `written` and not
+  pending; `written` only grows), so the write precedes the handler call. -/
+theorem c04_multi_complete_when_released {x : MSt} (hr : MReachableWF x) (e : Nat) (hn : x.s.n = 2 ^ e)
+    (hd : x.dr.pc = .done) (hrel : x.s.cursor = x.hw)
+    (k j : Nat) (hk : k < x.s.K) (hj : j < x.s.h k) (hc : (x.s.cons k j).pc = .done) :
+    (x.s.cons k j).log = List.range' 1 x.hw ∧
+    Tiles 1 x.allClaims (x.hw + 1) ∧
+    ∀ q, 1 ≤ q → q ≤ x.hw →
+      q ∈ (x.s.cons k j).log ∧
+      ∃ i, i < x.P ∧ (q, i) ∈ x.written ∧ (∀ i', (q, i') ∈ x.written → i' = i) ∧
+        (∃ cl, cl ∈ (x.wr i).claims ∧ cl ∈ x.allClaims ∧ cl.1 ≤ q ∧ q ≤ cl.2.1) ∧ ¬ Pend x q := by
+  have hlog := c04_multi_delivered_after_drain hr hd k j hk hj hc
+  rw [hrel] at hlog
+  have hso := mreachableWF_safeOwn hr e hn
+  have hon := mreachableWF_once hr e hn
+  refine ⟨hlog, (mreachableWF_good hr).1.tiles, ?_⟩
+  intro q q1 q2
+  refine ⟨by rw [hlog, List.mem_range'_1]; omega, ?_⟩
+  obtain ⟨_, ⟨i, hi⟩, hnp⟩ := published_below_cursor x hso.1 q q1 (by omega)
+  obtain ⟨hiP, cl, hcl, hb1, hb2⟩ := hso.2.wrote q i hi
+  exact ⟨i, hiP, hi, fun i' hi' => nodup_fst_unique _ hon.nodup q i' i hi' hi,
+    ⟨cl, hcl, hso.2.globl i hiP cl hcl, hb1, hb2⟩, hnp⟩
+
+theorem stepCons_log (s : St) (k j : Nat) (c : Cons) :
+    (stepCons s k j c).log = if c.pc = .handle ∧ c.i ≤ c.avail then c.log ++ [c.i] else c.log := by
+  cases hpc : c.pc <;> simp only [stepCons, hpc] <;> (repeat' split) <;> simp_all
+
+/-- **written before handed over**, as a statement about the step that hands the sequence over (ring sizes `2^e`, any number
+of writers, every schedule): if a step of handler `(k,j)` puts `q` into its log, then in the state *before* that step `q` is at
+or below the cursor, has been written to its slot and is pending with no writer. (`written` only grows, and by
+`c04_multi_complete_when_released` / `c04_multi_written_once` there is exactly one write of `q`, by its claimant.) -/
+theorem c04_multi_written_before_handed {x : MSt} (hr : MReachableWF x) (e : Nat) (hn : x.s.n = 2 ^ e) (k j : Nat)
+    (hk : k < x.s.K) (hj : j < x.s.h k) (q : Nat) (hnew : q ∈ ((stepM x (.cons k j)).s.cons k j).log)
+    (hold : q ∉ (x.s.cons k j).log) :
+    q ≤ x.s.cursor ∧ (∃ i, (q, i) ∈ x.written) ∧ ¬ Pend x q := by
+  have hs : (stepM x (.cons k j)).s = stepC x.s k j := by simp [stepM, hk, hj]
+  rw [hs, stepC_cons_self, stepCons_log] at hnew
+  by_cases hh : (x.s.cons k j).pc = .handle ∧ (x.s.cons k j).i ≤ (x.s.cons k j).avail
+  · rw [if_pos hh, List.mem_append, List.mem_singleton] at hnew
+    rcases hnew with h | h
+    · exact absurd h hold
+    · subst h
+      obtain ⟨a, _, b, c⟩ := c04_multi_handle_only_published hr e hn k j hk hj hh.1 hh.2
+      exact ⟨a, b, c⟩
+  · rw [if_neg hh] at hnew; exact absurd hnew hold
+
+/-! non-vacuity: in `demoMultiHandle` the next step of the handler hands over sequence 1 -/
+example : 1 ∈ ((stepM demoMultiHandle (.cons 0 0)).s.cons 0 0).log ∧ 1 ∉ (demoMultiHandle.s.cons 0 0).log := by
+  decide +kernel
+
+/-! non-vacuity: ring of 4, two stages, writer 0 writes three events, writer 1 two (`demoMSched` of the payload section: writes and
+publications out of sequence order, the ring wraps), then the join, `drain`, and both handlers run to completion. Everything
+was released (`cursor = hw = 5`) and both handlers were handed `1 … 5`. -/
+def releasedSched : List MTid :=
+  demoMSched ++ List.replicate 2 (MTid.writer 1) ++ List.replicate 12 MTid.drainer ++
+  List.replicate 4 (MTid.cons 0 0) ++ List.replicate 4 (MTid.cons 1 0)
+def releasedRun : MSt := runM (mkM 4 2 (fun _ => 1) false [[1, 1, 1], [1, 1]]) releasedSched
+
+theorem releasedRun_reachable : MReachableWF releasedRun :=
+  ⟨4, 2, fun _ => 1, false, [[1, 1, 1], [1, 1]], releasedSched, by decide, fun _ _ => Nat.one_pos, by decide, rfl⟩
+
+theorem releasedRun_facts :
+    (releasedRun.wr 0).pc = .done ∧ (releasedRun.wr 1).pc = .done ∧ releasedRun.dr.pc = .done ∧
+    (releasedRun.s.cons 0 0).pc = .done ∧ (releasedRun.s.cons 1 0).pc = .done ∧
+    releasedRun.s.cursor = 5 ∧ releasedRun.hw = 5 ∧ releasedRun.s.n = 2 ^ 2 ∧ releasedRun.s.K = 2 ∧ releasedRun.s.h 1 = 1 ∧
+    releasedRun.written = [(2, 1), (1, 0), (3, 0), (5, 0), (4, 1)] ∧
+    (releasedRun.s.cons 0 0).log = [1, 2, 3, 4, 5] ∧ (releasedRun.s.cons 1 0).log = [1, 2, 3, 4, 5] := by
+  decide +kernel
+
+/-- the theorem applied to that state: the second-stage handler got `1 … 5`, and sequence 4 was written by writer 1 only -/
+example : (releasedRun.s.cons 1 0).log = List.range' 1 5 ∧ (4, 1) ∈ releasedRun.written ∧
+    ∀ i', (4, i') ∈ releasedRun.written → i' = 1 := by
+  have hf := releasedRun_facts
+  obtain ⟨h1, _, h3⟩ := c04_multi_complete_when_released releasedRun_reachable 2 hf.2.2.2.2.2.2.2.1 hf.2.2.1
+    (by rw [hf.2.2.2.2.2.1, hf.2.2.2.2.2.2.1]) 1 0 (by rw [hf.2.2.2.2.2.2.2.2.1]; omega)
+    (by rw [hf.2.2.2.2.2.2.2.2.2.1]; omega) hf.2.2.2.2.1
+  rw [hf.2.2.2.2.2.2.1] at h1 h3
+  obtain ⟨_, i, _, hi, huniq, _⟩ := h3 4 (by omega) (by omega)
+  have : i = 1 := (huniq 1 (by rw [hf.2.2.2.2.2.2.2.2.2.2.1]; decide)).symm
+  subst this
+  exact ⟨h1, hi, huniq⟩
+
+/-! ### one writer thread: everything is delivered, under every fair schedule -/
+
+/-- a terminal state of a pipeline with one writer thread (either strategy): high watermark and cursor stand at `Σ batches`,
+every sequence `1 … Σ batches` was written by the writer, and every handler was handed exactly these sequences -/
+theorem single_writer_delivered_of_terminal (e K : Nat) (h : Nat → Nat) (bl : Bool) (bs : List Nat)
+    (hK : 0 < K) (hh : ∀ j, j < K → 0 < h j) (hb : ∀ b, b ∈ bs → 1 ≤ b) (σ : Nat → MTid) (t : Nat) (x : MSt)
+    (hx : x = Fair.run stepM σ (mkM (2 ^ e) K h bl [bs]) t) (ht : terminalM x) :
+    MReachableWF x ∧ x.s.n = 2 ^ e ∧ x.hw = bs.sum ∧ x.s.cursor = bs.sum ∧
+    (∀ q, 1 ≤ q → q ≤ bs.sum → (q, 0) ∈ x.written) ∧
+    ∀ k j, k < K → j < h k → (x.s.cons k j).log = List.range' 1 bs.sum := by
+  subst hx
+  have hb1 : ∀ l, l ∈ [bs] → ∀ b, b ∈ l → 1 ≤ b := by
+    intro l hl b hbl; simp at hl; subst hl; exact hb b hbl
+  have hr := C06.frun_reachable (2 ^ e) K h bl [bs] hK hh hb1 σ t
+  obtain ⟨eK, eh, en, _⟩ := BlkM.topo_frun σ (mkM (2 ^ e) K h bl [bs]) t
+  obtain ⟨_, _, h3, h4, h5⟩ := C06.c06_multi_all_written_at_exit e K h bl bs hK hh hb σ t ht
+  refine ⟨hr, en, h3, h4, h5, ?_⟩
+  intro k j hk hj
+  have hk' : k < (Fair.run stepM σ (mkM (2 ^ e) K h bl [bs]) t).s.K := by rw [eK]; exact hk
+  have hj' : j < (Fair.run stepM σ (mkM (2 ^ e) K h bl [bs]) t).s.h k := by rw [eh]; exact hj
+  rw [c04_multi_delivered_after_drain hr ht.2.1 k j hk' hj' (ht.2.2 k j hk' hj'), h4]
+
+/-- **C04, multi-producer sequencer with one writer thread, spin strategy: every event is delivered to every handler.** For
+every ring size `2^e`, topology, list of batches with `1 ≤ b < 2^e` and every weakly fair schedule a state is reached in which
+all threads have terminated, the writer has claimed and written exactly the sequences `1 … Σ batches`, and every handler of
+every stage was handed exactly `1, 2, …, Σ batches` — each once, in order. -/
+theorem c04_multi_single_writer_delivers_all (e K : Nat) (h : Nat → Nat) (bs : List Nat)
+    (hK : 0 < K) (hh : ∀ j, j < K → 0 < h j) (hb : ∀ b, b ∈ bs → 1 ≤ b ∧ b < 2 ^ e)
+    (σ : Nat → MTid) (hfair : C06.WeaklyFairM 1 K h σ) :
+    ∃ t x, x = Fair.run stepM σ (mkM (2 ^ e) K h false [bs]) t ∧ terminalM x ∧
+      x.hw = bs.sum ∧ x.s.cursor = bs.sum ∧ (∀ q, 1 ≤ q → q ≤ bs.sum → (q, 0) ∈ x.written) ∧
+      ∀ k j, k < K → j < h k → (x.s.cons k j).log = List.range' 1 bs.sum := by
+  obtain ⟨t, ht⟩ := C06.c06_multi_single_writer_spin_terminates e K h bs hK hh hb σ hfair
+  obtain ⟨_, _, h3, h4, h5, h6⟩ :=
+    single_writer_delivered_of_terminal e K h false bs hK hh (fun b hbm => (hb b hbm).1) σ t _ rfl ht
+  exact ⟨t, _, rfl, ht, h3, h4, h5, h6⟩
+
+/-- the same for the blocking strategy, under weak fairness + strong fairness of lock acquisition -/
+theorem c04_multi_single_writer_delivers_all_blocking (e K : Nat) (h : Nat → Nat) (bs : List Nat)
+    (hK : 0 < K) (hh : ∀ j, j < K → 0 < h j) (hb : ∀ b, b ∈ bs → 1 ≤ b ∧ b < 2 ^ e)
+    (σ : Nat → MTid) (hfair : C06.WeaklyFairM 1 K h σ) (hlock : C06.LockFairM 1 K h σ (mkM (2 ^ e) K h true [bs])) :
+    ∃ t x, x = Fair.run stepM σ (mkM (2 ^ e) K h true [bs]) t ∧ terminalM x ∧
+      x.hw = bs.sum ∧ x.s.cursor = bs.sum ∧ (∀ q, 1 ≤ q → q ≤ bs.sum → (q, 0) ∈ x.written) ∧
+      ∀ k j, k < K → j < h k → (x.s.cons k j).log = List.range' 1 bs.sum := by
+  obtain ⟨t, ht⟩ := C06.c06_multi_single_writer_blocking_terminates e K h bs hK hh hb σ hfair hlock
+  obtain ⟨_, _, h3, h4, h5, h6⟩ :=
+    single_writer_delivered_of_terminal e K h true bs hK hh (fun b hbm => (hb b hbm).1) σ t _ rfl ht
+  exact ⟨t, _, rfl, ht, h3, h4, h5, h6⟩
+
+/-- **… intact**: the same on the slot layer (`Model/RingMultiPay.lean`; mutable handlers alone in their stage, F9), either
+strategy (`hlock` is only needed for the blocking one). A state of the layer is reached in which all threads have terminated
+and every handler `(k,j)` has seen exactly the sequences `1 … Σ batches`, in order, each with the value of the one and only
+slot write of that sequence — made by the writer — transformed by the mutable handlers of the stages below `k`. -/
+theorem c04_multi_single_writer_payload_delivered (c : MPCfg) (e K : Nat) (h : Nat → Nat) (bl : Bool) (bs : List Nat)
+    (hK : 0 < K) (hh : ∀ j, j < K → 0 < h j) (hb : ∀ b, b ∈ bs → 1 ≤ b ∧ b < 2 ^ e)
+    (hT : ∀ k j, k < K → j < h k → c.mutH k j = true → h k = 1)
+    (σ : Nat → MTid) (hfair : C06.WeaklyFairM 1 K h σ)
+    (hlock : bl = true → C06.LockFairM 1 K h σ (mkM (2 ^ e) K h true [bs])) :
+    ∃ t s, s = runMPay c (mkMPay (2 ^ e) K h bl [bs]) ((List.range t).map σ) ∧ terminalM s.x ∧
+      ∀ k j, k < K → j < h k →
+        (s.seen k j).map (·.1) = List.range' 1 bs.sum ∧
+        ∀ p, p ∈ s.seen k j → ∃ v, (p.1, 0, v) ∈ s.wlog ∧ (∀ i' v', (p.1, i', v') ∈ s.wlog → i' = 0 ∧ v' = v) ∧
+          p.2 = expectBelow c.hc k v := by
+  have hb0 : ∀ b, b ∈ bs → 1 ≤ b := fun b hbm => (hb b hbm).1
+  have hb1 : ∀ l, l ∈ [bs] → ∀ b, b ∈ l → 1 ≤ b := by
+    intro l hl b hbl; simp at hl; subst hl; exact hb0 b hbl
+  obtain ⟨t, ht⟩ : ∃ t, terminalM (Fair.run stepM σ (mkM (2 ^ e) K h bl [bs]) t) := by
+    cases bl with
+    | false => exact C06.c06_multi_single_writer_spin_terminates e K h bs hK hh hb σ hfair
+    | true => exact C06.c06_multi_single_writer_blocking_terminates e K h bs hK hh hb σ hfair (hlock rfl)
+  have hsx : (runMPay c (mkMPay (2 ^ e) K h bl [bs]) ((List.range t).map σ)).x =
+      Fair.run stepM σ (mkM (2 ^ e) K h bl [bs]) t := by
+    rw [c04_multi_payload_layer_is_ghost, BlkM.frun_eq_runM]; rfl
+  have hpr : MPayReachable c (runMPay c (mkMPay (2 ^ e) K h bl [bs]) ((List.range t).map σ)) :=
+    ⟨e, K, h, bl, [bs], _, hK, hh, hb1, hT, rfl⟩
+  obtain ⟨_, _, _, _, _, h6⟩ := single_writer_delivered_of_terminal e K h bl bs hK hh hb0 σ t _ hsx (by rw [hsx]; exact ht)
+  obtain ⟨eK, eh, _, eP⟩ := BlkM.topo_frun σ (mkM (2 ^ e) K h bl [bs]) t
+  refine ⟨t, _, rfl, by rw [hsx]; exact ht, ?_⟩
+  intro k j hk hj
+  refine ⟨by rw [c04_multi_seen_is_log hpr, h6 k j hk hj], ?_⟩
+  intro p hp
+  obtain ⟨i, v, a1, a2, ⟨a3, _⟩, a4⟩ := c04_multi_payload_intact hpr k j (by rw [hsx, eK]; exact hk)
+    (by rw [hsx, eh]; exact hj) p hp
+  have hi0 : i = 0 := by
+    rw [hsx, eP] at a3
+    have : (mkM (2 ^ e) K h bl [bs]).P = 1 := rfl
+    omega
+  subst hi0
+  exact ⟨v, a1, a2, a4⟩
+
+/-! non-vacuity: the concrete fair schedules of `Props/C06.lean` (the writer, the draining thread and the single handler take
+turns) — spin: ring of 4, batches 2 and 3; blocking: ring of 2, batches 1 and 1 -/
+example : ∃ t x, x = Fair.run stepM C06.altM (mkM (2 ^ 2) 1 (fun _ => 1) false [[2, 3]]) t ∧ terminalM x ∧
+    (x.s.cons 0 0).log = [1, 2, 3, 4, 5] := by
+  obtain ⟨t, x, hx, ht, _, _, _, h⟩ := c04_multi_single_writer_delivers_all 2 1 (fun _ => 1) [2, 3] (by omega)
+    (fun _ _ => Nat.one_pos) (by intro b hb; simp at hb; omega) C06.altM C06.altM_fair
+  exact ⟨t, x, hx, ht, h 0 0 (by omega) (by omega)⟩
+
+example : ∃ t x, x = Fair.run stepM C06.altM (mkM (2 ^ 1) 1 (fun _ => 1) true [[1, 1]]) t ∧ terminalM x ∧
+    (x.s.cons 0 0).log = [1, 2] := by
+  obtain ⟨t, x, hx, ht, _, _, _, h⟩ := c04_multi_single_writer_delivers_all_blocking 1 1 (fun _ => 1) [1, 1] (by omega)
+    (fun _ _ => Nat.one_pos) (by intro b hb; simp at hb; omega) C06.altM C06.altM_fair C06.altM_lockfair
+  exact ⟨t, x, hx, ht, h 0 0 (by omega) (by omega)⟩
+
+/-- the same run on the slot layer (`demoMCfg`: writer `i` stores `1000·(i+1) + m` for its `m`-th event): the handler saw the
+five events of the writer, in order, each with the value written for it -/
+example : ∃ t s, s = runMPay demoMCfg (mkMPay (2 ^ 2) 1 (fun _ => 1) false [[2, 3]]) ((List.range t).map C06.altM) ∧
+    terminalM s.x ∧ (s.seen 0 0).map (·.1) = [1, 2, 3, 4, 5] := by
+  obtain ⟨t, s, hs, ht, h⟩ := c04_multi_single_writer_payload_delivered demoMCfg 2 1 (fun _ => 1) false [2, 3] (by omega)
+    (fun _ _ => Nat.one_pos) (by intro b hb; simp at hb; omega) (fun _ _ _ _ _ => rfl) C06.altM C06.altM_fair
+    (by intro hf; cases hf)
+  exact ⟨t, s, hs, ht, (h 0 0 (by omega) (by omega)).1⟩
+
+end MultiDelivery
 
 end C04
